@@ -16,6 +16,20 @@ fn known_driver(rng: &mut Rng, timeout: Option<u64>) -> DriverCfg {
 
 /// A frame the unit's driver accepts as a sign of life (or a measurement).
 fn frame_from_unit(rng: &mut Rng, d: &DriverCfg) -> [u8; 16] {
+    let full = frame_from_unit_full(rng, d);
+    // now and then the unit's frame arrives SHORT (DLC 0..7): the network pads it with 0xFF ("not available") before any driver
+    // sees it, and what is decoded from it must be what is decoded from the padded frame
+    if rng.chance(1, 6) {
+        let id = u32::from_le_bytes([full[0], full[1], full[2], full[3]]);
+        let k = rng.below(8) as usize;
+        let mut data = [0u8; 8];
+        data[..k].copy_from_slice(&full[8..8 + k]);
+        return crate::bus::Bus::raw(id, k as u8, &data);
+    }
+    full
+}
+
+fn frame_from_unit_full(rng: &mut Rng, d: &DriverCfg) -> [u8; 16] {
     let da = d.da;
     // any parameter group any driver inspects, from this unit's address (whether its own driver accepts it is for the
     // model to say)
@@ -221,6 +235,51 @@ pub fn run_c10_foreign(out: &mut Out, _tier: &str, rng: &mut Rng) {
     }
 }
 
+/// "Once it has been silent longer than the timeout the next cycle publishes Faulty, and when it speaks again Healthy is
+/// published again" with REAL time, also in the quick tier: per unit kind, timeout 300 ms, silences of 450 ms; the unit
+/// speaks again with THE SAME frame it sent before (and with a different one).  Frames are always followed by a cycle at
+/// once, so only a stall of 300 ms between two statements of the harness could disturb a case.
+pub fn run_c10_timed(out: &mut Out, tier: &str, rng: &mut Rng) {
+    let kinds: [(&str, &str, u8); 6] = [("laixer", "hcu", 0x4A), ("laixer", "vcu", 0x12), ("volvo", "d7e", 0x00), ("kübler", "inclinometer", 0x7A), ("kübler", "encoder", 0x6A), ("j1939", "ecu", 0x3C)];
+    for (n, (v, p, da)) in kinds.iter().enumerate() {
+        if tier != "thorough" && n % 2 == 1 {
+            continue;
+        }
+        let d = DriverCfg { da: *da, sa: None, timeout: Some(300), vendor: (*v).into(), product: (*p).into() };
+        let cfg = NetCfg { address: 0x27, name: default_name(), drivers: vec![d.clone()] };
+        let mut rig = match Rig::new(&cfg) {
+            Ok(r) => r,
+            Err(()) => continue,
+        };
+        let mut h = Hist { rig: &mut rig, ins: vec![], outs: vec![] };
+        h.setup();
+        // a frame this unit's driver accepts as a sign of life: its status / measurement frame, written out per kind
+        let f1: [u8; 16] = match *p {
+            "hcu" | "vcu" => raw_of(make_id(6, 65288, 0, *da), &[0x14, 0xFF, 1, 0xFF, 1, 0, 0, 0]),
+            "d7e" => raw_of(make_id(3, 61444, 0, *da), &[0xF0, 0x7D, 0x80, 0xE0, 0x2E, 0xFF, 0xFF, 0xFF]),
+            "inclinometer" => raw_of(make_id(6, 65451, 0, *da), &[10, 0, 0xF6, 0xFF, 0xFA, 0, 0, 0]),
+            "encoder" => raw_of(make_id(6, 65450, 0, *da), &[0x10, 0x27, 0, 0, 0, 0, 0, 0]),
+            _ => raw_of(make_id(6, 65242, 0, *da), &[1, 1, 2, 3, b'*', 0xFF, 0xFF, 0xFF]),
+        };
+        let _ = &rng;
+        h.frame(&f1);
+        h.cycle();
+        h.wait(450);
+        h.cycle();
+        h.frame(&f1);
+        h.cycle();
+        h.wait(450);
+        h.cycle();
+        h.frame(&raw_of(make_id(6, 60928, 0xFF, *da), &[1, 2, 3, 4, 5, 6, 7, 8]));
+        h.cycle();
+        h.frame(&f1);
+        h.cycle();
+        let (ins, outs) = (h.ins.join(" "), h.outs.join(" "));
+        out.case(&format!("auth {} {}", cfg.tok(), ins), &outs, true);
+        out.count(&format!("timed history (300 ms timeout, 450 ms silences), unit kind {}", p));
+    }
+}
+
 /// C01 at the authority level: the latest motion command governs what every hydraulic unit is sent, whatever the
 /// bus traffic and whether or not the unit is currently heard (timeouts absent / expired / far away).
 pub fn run_c01_auth(out: &mut Out, tier: &str, rng: &mut Rng) {
@@ -409,7 +468,7 @@ pub fn run_c06_auth(out: &mut Out, tier: &str, rng: &mut Rng) {
                 raw_of(make_id(6, 59904, 0x27, *rng.pick(&[0x10u8, 0x4A])), &[(req & 0xFF) as u8, (req >> 8) as u8, (req >> 16) as u8, 0xFF, 0xFF, 0xFF, 0xFF, 0xFF])
             } else {
                 let d = rng.pick(&cfg.drivers).clone();
-                frame_from_unit(rng, &d)
+                frame_from_unit_full(rng, &d)
             };
             let id = u32::from_le_bytes([full[0], full[1], full[2], full[3]]);
             let k = rng.below(8) as usize;
@@ -606,7 +665,7 @@ pub fn run_c16_auth(out: &mut Out, tier: &str, rng: &mut Rng) {
                 } else if rng.chance(1, 3) {
                     raw_of(make_id(6, *rng.pick(&[45824u32, 45312, 40960, 41216]), *rng.pick(&[d.da, 0xFF]), 0x27), &[0x5A, 0x43, 0xFF, 0, 0xFF, 0xFF, 0xFF, 0xFF])
                 } else {
-                    frame_from_unit(rng, &d)
+                    frame_from_unit_full(rng, &d)
                 };
                 let id = u32::from_le_bytes([full[0], full[1], full[2], full[3]]);
                 let k = rng.below(9) as usize;
